@@ -849,12 +849,25 @@ func cpCleanRejectKey(f *cpFile, rej *cpRejected) string {
 	if rej.stage == "build-trie" && cpKvLeafCollision(f.Sections) != "" {
 		return "kv-leaf-collision"
 	}
+	// Second face of the same defect: once two colliding pairs have existed, deleting ONE of them removes the
+	// shared leaf from the producer's trie; the surviving pair is in the file but no longer in the producer's
+	// root, so the label recomputed by the consumer differs ("catchpoint hash mismatch" at verify).
+	if rej.stage == "verify" && curSim != nil {
+		if _, what := curSim.kvCollisionBefore(f.Round); what != "" {
+			return "kv-leaf-collision"
+		}
+	}
 	return rej.stage
 }
 
 func cpCollisionNote(f *cpFile) string {
 	if c := cpKvLeafCollision(f.Sections); c != "" {
 		return " [the producer's own state holds colliding kv pairs: " + c + "]"
+	}
+	if curSim != nil {
+		if r, what := curSim.kvCollisionBefore(f.Round); what != "" {
+			return fmt.Sprintf(" [the producer's state of round %d held colliding kv pairs: %s]", r, what)
+		}
 	}
 	return ""
 }
